@@ -1,35 +1,796 @@
+// Driver for C33: calls the REAL date code (core.SuDate: NewDate, Plus, MinusDays,
+// MinusMs, Compare, String, DateFromLiteral; and through compile.EvalString the
+// Suneido level: date literals, date.Plus(years:, ...), date.MinusDays,
+// date.MinusSeconds, <, is, Display) on the boundary grid of spec/mc/MC_Calendar.tla
+// and on seeded random dates/offsets, and logs inputs and results as small integers
+// (a date-time is [year, month, day, hour, minute, second, millisecond]) for
+// spec/trace/TraceCalendar.tla.
+//
+// No expected value is computed here. The only arithmetic of the driver is the
+// splitting of 64-bit millisecond/second counts into days and a remainder (TLC has
+// 32-bit integers): offsets as xd*86400000 + ms, differences as mq*86400000 + mr.
+//
+// usage: calendar run <outdir> <scale>      -> <outdir>/main.ndjson, <outdir>/bigms.ndjson
+//
+//	calendar tz <out.ndjson>            (TZ set by the caller) dates around local DST changes
+//	calendar replay <in.ndjson> <out.ndjson>   re-executes the inputs of a recorded trace
 package main
 
 import (
+	"bufio"
+	"encoding/json"
 	"fmt"
+	"math/rand"
+	"os"
+	"path/filepath"
+	"strconv"
+	"strings"
+	"time"
 
 	_ "github.com/apmckinlay/gsuneido/builtin"
 	"github.com/apmckinlay/gsuneido/compile"
 	"github.com/apmckinlay/gsuneido/core"
+	"github.com/apmckinlay/gsuneido/util/dnum"
+
+	"verifharness/vh"
 )
 
-func ev(th *core.Thread, src string) (res string) {
+const msPerDay = 86400000
+
+var (
+	rnd    *rand.Rand
+	th     *core.Thread
+	counts = map[string]int{}
+	tzRun  = 0
+)
+
+type dt [7]int  // year, month, day, hour, minute, second, millisecond
+type off [7]int // years .. milliseconds (64-bit here; split before logging)
+
+func (d dt) sl() []int { return d[:] }
+
+func fields(d core.SuDate) []int {
+	return []int{d.Year(), d.Month(), d.Day(), d.Hour(), d.Minute(), d.Second(), d.Millisecond()}
+}
+
+func mk(d dt) core.SuDate {
+	return core.NewDate(d[0], d[1], d[2], d[3], d[4], d[5], d[6])
+}
+
+// floor division
+func fdiv(a, b int64) (q, r int64) {
+	q, r = a/b, a%b
+	if r < 0 {
+		q--
+		r += b
+	}
+	return
+}
+
+// guard runs f; a panic of the code under test is returned as text
+func guard(f func()) (p string) {
 	defer func() {
 		if e := recover(); e != nil {
-			res = fmt.Sprint("PANIC ", e)
+			p = fmt.Sprint(e)
 		}
 	}()
-	v := compile.EvalString(th, src)
-	return fmt.Sprintf("%v (%T)", v, v)
+	f()
+	return ""
+}
+
+func eval(src string) (v core.Value, p string) {
+	p = guard(func() { v = compile.EvalString(th, src) })
+	return
+}
+
+func ints(s string) []int {
+	r := make([]int, len(s))
+	for i := 0; i < len(s); i++ {
+		r[i] = int(s[i])
+	}
+	return r
+}
+
+// ---------------------------------------------------------------- differences
+
+// diff computes a.MinusDays(b), a.MinusMs(b) split into days and ms, and the order
+// of a and b, at Go level (via 0) or Suneido level (via 1)
+func diff(via int, a, b core.SuDate) (ok int, md int, mq, mr int64, cmp int) {
+	if via == 0 {
+		var ms int64
+		if p := guard(func() {
+			md = a.MinusDays(b)
+			ms = a.MinusMs(b)
+			cmp = a.Compare(b)
+		}); p != "" {
+			return 0, 0, 0, 0, 0
+		}
+		mq, mr = fdiv(ms, msPerDay)
+		return 1, md, mq, mr, cmp
+	}
+	as, bs := a.String(), b.String()
+	v, p := eval(as + ".MinusDays(" + bs + ")")
+	if p != "" {
+		return 0, 0, 0, 0, 0
+	}
+	md = core.ToInt(v)
+	var ms int64
+	yd := a.Year() - b.Year()
+	if yd < 50 && yd > -50 {
+		// date.MinusSeconds refuses intervals of 50 years or more; seconds with ms accuracy
+		v, p = eval(as + ".MinusSeconds(" + bs + ")")
+		if p != "" {
+			return 0, 0, 0, 0, 0
+		}
+		n, exact := dnum.Mul(core.ToDnum(v), dnum.FromInt(1000)).ToInt64()
+		if !exact {
+			// not a whole number of milliseconds: log something that cannot be right
+			return 1, md, -999999, -1, 0
+		}
+		ms = n
+	} else {
+		ms = a.MinusMs(b)
+	}
+	mq, mr = fdiv(ms, msPerDay)
+	lt, p1 := eval(as + " < " + bs)
+	eq, p2 := eval(as + " is " + bs)
+	gt, p3 := eval(as + " > " + bs)
+	if p1 != "" || p2 != "" || p3 != "" {
+		return 0, 0, 0, 0, 0
+	}
+	n := 0
+	cmp = 9
+	if lt == core.True {
+		cmp, n = -1, n+1
+	}
+	if eq == core.True {
+		cmp, n = 0, n+1
+	}
+	if gt == core.True {
+		cmp, n = 1, n+1
+	}
+	if n != 1 {
+		cmp = 9 // not exactly one of <, is, > holds
+	}
+	return 1, md, mq, mr, cmp
+}
+
+// ---------------------------------------------------------------- events
+
+var names = []string{"years", "months", "days", "hours", "minutes", "seconds", "milliseconds"}
+
+// split makes the offsets fit 32 bits: whole days of too large millisecond / second
+// offsets are moved to xd
+func split(o off) (lo []int, xd int, xu int) {
+	lo = make([]int, 7)
+	for i := range o {
+		lo[i] = o[i]
+	}
+	const lim = 2000000000
+	if o[6] > lim || o[6] < -lim {
+		q, r := fdiv(int64(o[6]), msPerDay)
+		xd += int(q)
+		lo[6] = int(r)
+		xu = 6
+	}
+	if o[5] > lim || o[5] < -lim {
+		q, r := fdiv(int64(o[5]), 86400)
+		xd += int(q)
+		lo[5] = int(r)
+		if xu != 0 {
+			vh.Fatal("only one of seconds/milliseconds may exceed 32 bits: %v", o)
+		}
+		xu = 5
+	}
+	return
+}
+
+func abs(x int) int {
+	if x < 0 {
+		return -x
+	}
+	return x
+}
+
+// bounded mirrors Calendar!Bounded (the model's 32-bit arithmetic); the driver only
+// generates such offsets
+func bounded(lo []int, xd int) bool {
+	return abs(lo[0]) <= 5000 && abs(lo[1]) <= 60000 && abs(lo[2]) <= 1000000 && abs(xd) <= 1000000 &&
+		abs(lo[3]) <= 20000000 && abs(lo[4]) <= 1000000000 && abs(lo[5]) <= 2000000000 && abs(lo[6]) <= 2000000000
+}
+
+func emitPlus(tr *vh.Trace, via int, d dt, o off) {
+	lo, xd, xu := split(o)
+	if !bounded(lo, xd) {
+		vh.Fatal("driver generated an offset outside the model's bounds: %v", o)
+	}
+	sd := mk(d)
+	if sd == core.NilDate {
+		// the input itself is refused by the real code (only seen for the local time zone finding)
+		tr.Emit(vh.E("Plus", "via", via, "tz", tzRun, "d", d.sl(), "o", lo, "xd", xd, "xu", xu, "ok", 0,
+			"r", []int{}, "md", 0, "mq", 0, "mr", 0, "cmp", 0))
+		counts["Plus"]++
+		return
+	}
+	var r core.SuDate
+	ok := 1
+	if via == 0 {
+		if p := guard(func() { r = sd.Plus(o[0], o[1], o[2], o[3], o[4], o[5], o[6]) }); p != "" {
+			ok = 0
+		}
+	} else {
+		var args []string
+		for i, n := range o {
+			if n != 0 || rnd.Intn(8) == 0 {
+				args = append(args, names[i]+": "+strconv.Itoa(n))
+			}
+		}
+		rnd.Shuffle(len(args), func(i, j int) { args[i], args[j] = args[j], args[i] })
+		v, p := eval(sd.String() + ".Plus(" + strings.Join(args, ", ") + ")")
+		if p != "" {
+			ok = 0
+		} else if x, isDate := v.(core.SuDate); isDate {
+			r = x
+		} else {
+			ok = 0
+		}
+	}
+	if ok == 0 {
+		tr.Emit(vh.E("Plus", "via", via, "tz", tzRun, "d", d.sl(), "o", lo, "xd", xd, "xu", xu, "ok", 0,
+			"r", []int{}, "md", 0, "mq", 0, "mr", 0, "cmp", 0))
+		counts["Plus"]++
+		return
+	}
+	dok, md, mq, mr, cmp := diff(via, r, sd)
+	if dok == 0 {
+		md, mq, mr, cmp = -999999, -999999, -1, 9 // a difference of two dates must not fail
+	}
+	tr.Emit(vh.E("Plus", "via", via, "tz", tzRun, "d", d.sl(), "o", lo, "xd", xd, "xu", xu, "ok", 1,
+		"r", fields(r), "md", md, "mq", mq, "mr", mr, "cmp", cmp))
+	counts["Plus"]++
+}
+
+func emitDiff(tr *vh.Trace, via int, a, b dt) {
+	sa, sb := mk(a), mk(b)
+	if sa == core.NilDate || sb == core.NilDate {
+		tr.Emit(vh.E("Diff", "via", via, "tz", tzRun, "a", a.sl(), "b", b.sl(), "ok", 0, "md", 0, "mq", 0, "mr", 0, "cmp", 0))
+		counts["Diff"]++
+		return
+	}
+	ok, md, mq, mr, cmp := diff(via, sa, sb)
+	tr.Emit(vh.E("Diff", "via", via, "tz", tzRun, "a", a.sl(), "b", b.sl(), "ok", ok, "md", md, "mq", mq, "mr", mr, "cmp", cmp))
+	counts["Diff"]++
+}
+
+// emitLit: the literal text of a date (String / Display) and what it parses back to
+func emitLit(tr *vh.Trace, via int, d dt) {
+	sd := mk(d)
+	if sd == core.NilDate {
+		tr.Emit(vh.E("Lit", "via", via, "tz", tzRun, "d", d.sl(), "s", []int{}, "ok", 0, "p", []int{}))
+		counts["Lit"]++
+		return
+	}
+	var s string
+	var back core.Value
+	if via == 0 {
+		s = sd.String()
+		if p := guard(func() { back = core.DateFromLiteral(s) }); p != "" {
+			back = nil
+		}
+	} else {
+		v, p := eval("Display(" + sd.String() + ")")
+		if p == "" {
+			s = core.ToStr(v)
+		}
+		back, _ = eval(s)
+	}
+	if bd, isDate := back.(core.SuDate); isDate && bd != core.NilDate {
+		tr.Emit(vh.E("Lit", "via", via, "tz", tzRun, "d", d.sl(), "s", ints(s), "ok", 1, "p", fields(bd)))
+	} else {
+		tr.Emit(vh.E("Lit", "via", via, "tz", tzRun, "d", d.sl(), "s", ints(s), "ok", 0, "p", []int{}))
+	}
+	counts["Lit"]++
+}
+
+// emitParse: a literal text made by the driver (all four forms, also impossible dates)
+func emitParse(tr *vh.Trace, via int, s string) {
+	var v core.Value
+	if via == 0 {
+		if p := guard(func() { v = core.DateFromLiteral(s) }); p != "" {
+			v = nil
+		}
+	} else if via == 1 {
+		v, _ = eval(s) // the lexer's date literal
+	} else {
+		v, _ = eval("Date('" + s + "')") // Date(string) with a literal
+	}
+	if d, isDate := v.(core.SuDate); isDate && d != core.NilDate {
+		tr.Emit(vh.E("Parse", "via", via, "tz", tzRun, "s", ints(s), "ok", 1, "p", fields(d)))
+	} else {
+		tr.Emit(vh.E("Parse", "via", via, "tz", tzRun, "s", ints(s), "ok", 0, "p", []int{}))
+	}
+	counts["Parse"]++
+}
+
+// ---------------------------------------------------------------- inputs
+
+var gridYears = []int{1700, 1899, 1900, 2000, 2023, 2024, 2999, 3000}
+var gridDays = []int{1, 28, 29, 30, 31}
+var gridTimes = [][4]int{{12, 34, 56, 789}, {0, 0, 0, 0}, {23, 59, 59, 999}, {0, 0, 0, 1}, {23, 59, 59, 0}, {0, 59, 0, 999}}
+
+// gridDates: the dates of the MC grid that the real code accepts as dates
+func gridDates() []dt {
+	var r []dt
+	for _, y := range gridYears {
+		for m := 1; m <= 12; m++ {
+			for _, d := range gridDays {
+				if core.NewDate(y, m, d, 0, 0, 0, 0) != core.NilDate {
+					r = append(r, dt{y, m, d, 0, 0, 0, 0})
+				}
+			}
+		}
+	}
+	return r
+}
+
+func withTime(d dt, t [4]int) dt {
+	if d[0] == 3000 {
+		return d // 3000-01-01 00:00:00.000 is the only value of that year
+	}
+	d[3], d[4], d[5], d[6] = t[0], t[1], t[2], t[3]
+	return d
+}
+
+func pm(xs ...int) []int {
+	r := append([]int{}, xs...)
+	for _, x := range xs {
+		r = append(r, -x)
+	}
+	return r
+}
+
+var (
+	offYears   = pm(1, 4, 5, 99, 100, 101, 400, 1300)
+	offHours   = pm(1, 23, 24, 25, 49, 8760)
+	offMinutes = pm(1, 59, 60, 61, 1439, 1440, 1441)
+	offSeconds = pm(1, 59, 60, 61, 3599, 3600, 3601, 86399, 86400, 86401, 31622400)
+	offMs      = pm(1, 211, 212, 999, 1000, 1001, 59999, 60000, 60001, 3599999, 3600000, 3600001,
+		86399999, 86400000, 86400001, 2000000000)
+	dayBounds = pm(0, 1, 2, 27, 28, 29, 30, 31, 32, 58, 59, 60, 61, 62, 89, 90, 91, 92, 364, 365, 366, 367, 729, 730, 731, 732, 799, 800)
+)
+
+func one(i, n int) off {
+	var o off
+	o[i] = n
+	return o
+}
+
+func pick(xs []int) int { return xs[rnd.Intn(len(xs))] }
+
+// sample returns k distinct elements of xs (all if k >= len)
+func sample(xs []int, k int) []int {
+	if k >= len(xs) {
+		return xs
+	}
+	p := rnd.Perm(len(xs))[:k]
+	r := make([]int, k)
+	for i, j := range p {
+		r[i] = xs[j]
+	}
+	return r
+}
+
+func via() int {
+	if rnd.Intn(3) == 0 {
+		return 1
+	}
+	return 0
+}
+
+func randTime() [4]int {
+	switch rnd.Intn(6) {
+	case 0:
+		return [4]int{0, 0, 0, 0}
+	case 1:
+		return [4]int{23, 59, 59, 999}
+	case 2:
+		return [4]int{pick([]int{0, 23}), pick([]int{0, 59}), pick([]int{0, 59}), pick([]int{0, 1, 999})}
+	case 3:
+		return [4]int{rnd.Intn(24), rnd.Intn(60), 0, 0}
+	case 4:
+		return [4]int{rnd.Intn(24), rnd.Intn(60), rnd.Intn(60), 0}
+	}
+	return [4]int{rnd.Intn(24), rnd.Intn(60), rnd.Intn(60), rnd.Intn(1000)}
+}
+
+// randDate: a date of the supported range accepted by the real code, biased to
+// month ends, leap days and century years
+func randDate() dt {
+	for {
+		var y int
+		switch rnd.Intn(5) {
+		case 0:
+			y = pick([]int{1700, 1701, 1799, 1800, 1900, 1999, 2000, 2001, 2100, 2400, 2800, 2900, 2996, 2999})
+		case 1:
+			y = 1900 + rnd.Intn(200)
+		default:
+			y = 1700 + rnd.Intn(1300)
+		}
+		m := 1 + rnd.Intn(12)
+		if rnd.Intn(4) == 0 {
+			m = pick([]int{1, 2, 2, 3, 12})
+		}
+		d := 1 + rnd.Intn(31)
+		if rnd.Intn(3) == 0 {
+			d = pick([]int{1, 28, 29, 30, 31})
+		}
+		x := withTime(dt{y, m, d, 0, 0, 0, 0}, randTime())
+		if mk(x) != core.NilDate {
+			return x
+		}
+	}
+}
+
+func randMag(limit int) int {
+	var n int
+	switch rnd.Intn(4) {
+	case 0:
+		n = rnd.Intn(3)
+	case 1:
+		n = rnd.Intn(100)
+	case 2:
+		n = rnd.Intn(10000)
+	default:
+		n = rnd.Intn(limit)
+	}
+	if n > limit {
+		n = limit
+	}
+	if rnd.Intn(2) == 0 {
+		n = -n
+	}
+	return n
+}
+
+// randOffset: one to seven fields set
+func randOffset() off {
+	var o off
+	lim := []int{300, 3000, 100000, 2000000, 100000000, 2000000000, 2000000000}
+	n := 1
+	if rnd.Intn(2) == 0 {
+		n = 1 + rnd.Intn(7)
+	}
+	for ; n > 0; n-- {
+		i := rnd.Intn(7)
+		o[i] = randMag(lim[i])
+	}
+	return o
+}
+
+func literalForms(d dt) []string {
+	date := fmt.Sprintf("%04d%02d%02d", d[0], d[1], d[2])
+	return []string{
+		"#" + date,
+		"#" + date + fmt.Sprintf(".%02d%02d", d[3], d[4]),
+		"#" + date + fmt.Sprintf(".%02d%02d%02d", d[3], d[4], d[5]),
+		"#" + date + fmt.Sprintf(".%02d%02d%02d%03d", d[3], d[4], d[5], d[6]),
+	}
+}
+
+// ---------------------------------------------------------------- run
+
+func run(outdir string, scale int) {
+	tr := vh.Create(filepath.Join(outdir, "main.ndjson"))
+	grid := gridDates()
+	seed := int(vh.Seed())
+	nDays, nOther, nCombo := 10, 3, 3
+	if scale >= 4 {
+		nDays, nOther, nCombo = 40, 8, 12
+	}
+	// 1. the boundary grid of MC_Calendar: every grid date, the time of day rotating with
+	// the seed; all month offsets -25..25; seeded samples of the other offset sets
+	for gi, g := range grid {
+		t := gridTimes[(gi+seed)%len(gridTimes)]
+		d := withTime(g, t)
+		d0 := withTime(g, gridTimes[0])
+		for m := -25; m <= 25; m++ {
+			emitPlus(tr, via(), d0, one(1, m))
+		}
+		for _, y := range sample(offYears, 2*nOther) {
+			emitPlus(tr, via(), d0, one(0, y))
+		}
+		for _, n := range sample(dayBounds, nDays) {
+			emitPlus(tr, via(), d, one(2, n))
+		}
+		for i := 0; i < nDays/2; i++ {
+			emitPlus(tr, via(), d, one(2, rnd.Intn(1601)-800))
+		}
+		for _, n := range sample(offHours, nOther) {
+			emitPlus(tr, via(), d, one(3, n))
+		}
+		for _, n := range sample(offMinutes, nOther) {
+			emitPlus(tr, via(), d, one(4, n))
+		}
+		for _, n := range sample(offSeconds, nOther) {
+			emitPlus(tr, via(), d, one(5, n))
+		}
+		for _, n := range sample(offMs, 2*nOther) {
+			emitPlus(tr, via(), d, one(6, n))
+		}
+		for i := 0; i < nCombo; i++ {
+			emitPlus(tr, via(), d, off{pick([]int{-1, 0, 1}), pick([]int{-13, -1, 0, 1, 13}), pick([]int{-31, 0, 1, 31}),
+				pick([]int{-25, 0, 25}), pick([]int{0, 61}), pick([]int{0, -61}), pick([]int{-1, 0, 1000})})
+		}
+		emitLit(tr, gi%2, d)
+		if gi%4 == seed%4 {
+			for _, s := range literalForms(d) {
+				emitParse(tr, rnd.Intn(3), s)
+			}
+			emitDiff(tr, via(), d, withTime(grid[rnd.Intn(len(grid))], gridTimes[rnd.Intn(len(gridTimes))]))
+		}
+	}
+	tr.Reset()
+	// 2. seeded random dates and offsets
+	nr := 1500 * scale
+	for i := 0; i < nr; i++ {
+		emitPlus(tr, via(), randDate(), randOffset())
+	}
+	// large second offsets (beyond 32 bits: split into days + seconds by the driver)
+	for i := 0; i < nr/20; i++ {
+		d := randDate()
+		s := rnd.Int63n(41000000000)
+		if d[0] > 2350 {
+			s = -s
+		}
+		emitPlus(tr, via(), d, one(5, int(s)))
+	}
+	for i := 0; i < nr/3; i++ {
+		a := randDate()
+		b := randDate()
+		switch rnd.Intn(4) {
+		case 0: // same day
+			b = withTime(a, randTime())
+		case 1: // near
+			if x, isDate := guardPlus(mk(a), off{0, 0, rnd.Intn(5) - 2, rnd.Intn(49) - 24, 0, rnd.Intn(3) - 1, rnd.Intn(3) - 1}); isDate {
+				b = x
+			}
+		}
+		emitDiff(tr, via(), a, b)
+	}
+	for i := 0; i < nr/3; i++ {
+		emitLit(tr, rnd.Intn(2), randDate())
+	}
+	// literal texts: every form, also days that do not exist
+	for i := 0; i < nr/3; i++ {
+		d := randDate()
+		if rnd.Intn(3) == 0 {
+			y := pick([]int{1700, 1800, 1900, 2000, 2023, 2024, 2100, 2400, 2999})
+			if rnd.Intn(2) == 0 {
+				y = 1700 + rnd.Intn(1300)
+			}
+			d = dt{y, pick([]int{2, 2, 4, 6, 9, 11, 1, 12}), pick([]int{28, 29, 30, 31}), d[3], d[4], d[5], d[6]}
+		}
+		emitParse(tr, rnd.Intn(3), literalForms(d)[rnd.Intn(4)])
+	}
+	tr.Close()
+
+	// 3. millisecond offsets beyond 32 bits, up to the whole supported range
+	// (kept in a file of its own: validated separately)
+	tb := vh.Create(filepath.Join(outdir, "bigms.ndjson"))
+	steps := []int64{2147483648, 4294967296, 86400000000, 1000000000000, 9000000000000, 9223372036854,
+		9223372036855, 9300000000000, 10000000000000, 20000000000000, 40000000000000}
+	for _, ms := range steps {
+		emitPlus(tb, 0, dt{1700, 1, 1, 0, 0, 0, 0}, one(6, int(ms)))
+		emitPlus(tb, 1, dt{1700, 1, 1, 0, 0, 0, 0}, one(6, int(ms)))
+		emitPlus(tb, 0, dt{2999, 12, 31, 23, 59, 59, 999}, one(6, int(-ms)))
+		emitPlus(tb, 1, dt{2999, 12, 31, 23, 59, 59, 999}, one(6, int(-ms)))
+	}
+	for i := 0; i < 100*scale; i++ {
+		d := randDate()
+		var ms int64
+		if rnd.Intn(2) == 0 {
+			ms = 2000000001 + rnd.Int63n(9000000000000)
+		} else {
+			ms = 2000000001 + rnd.Int63n(41000000000000)
+		}
+		if d[0] > 2350 {
+			ms = -ms
+		}
+		emitPlus(tb, via(), d, one(6, int(ms)))
+	}
+	tb.Close()
+	summary()
+}
+
+func guardPlus(d core.SuDate, o off) (r dt, ok bool) {
+	var x core.SuDate
+	if p := guard(func() { x = d.Plus(o[0], o[1], o[2], o[3], o[4], o[5], o[6]) }); p != "" {
+		return r, false
+	}
+	if x.Year() < 1700 {
+		return r, false
+	}
+	copy(r[:], fields(x))
+	return r, true
+}
+
+func summary() {
+	kv := []any{"seed", vh.Seed(), "tz", os.Getenv("TZ"), "local", time.Local.String()}
+	for _, k := range []string{"Plus", "Diff", "Lit", "Parse"} {
+		kv = append(kv, k, counts[k])
+	}
+	vh.Summary(kv...)
+}
+
+// ---------------------------------------------------------------- tz
+
+// tz: the process runs with TZ set by the caller. SuDate is documented as "does not take
+// into account time zones or daylight savings": every calendar date must be accepted and
+// computed with whatever the local zone is. Inputs: the days on which the local zone
+// changes its offset (found with Go's time package - input selection only), their
+// neighbours, and additions that land on them.
+func tz(out string) {
+	tzRun = 1
+	tr := vh.Create(out)
+	loc := time.Local
+	var days []dt
+	t := time.Date(1900, 1, 1, 12, 0, 0, 0, time.UTC)
+	end := time.Date(2040, 1, 1, 12, 0, 0, 0, time.UTC)
+	_, prev := t.In(loc).Zone()
+	for ; t.Before(end); t = t.Add(24 * time.Hour) {
+		_, o := t.In(loc).Zone()
+		if o != prev {
+			for k := -1; k <= 0; k++ {
+				x := t.Add(time.Duration(k) * 24 * time.Hour)
+				days = append(days, dt{x.Year(), int(x.Month()), x.Day(), 0, 0, 0, 0})
+			}
+		}
+		prev = o
+	}
+	if len(days) > 400 {
+		p := rnd.Perm(len(days))[:400]
+		var sel []dt
+		for _, i := range p {
+			sel = append(sel, days[i])
+		}
+		days = sel
+	}
+	for _, d := range days {
+		for _, s := range literalForms(d)[:1] {
+			emitParse(tr, 0, s)
+			emitParse(tr, 1+rnd.Intn(2), s)
+		}
+		emitLit(tr, rnd.Intn(2), d)
+		// land on d from a day, a month and an hour away
+		for _, o := range []off{one(2, 1), one(2, -1), one(1, 1), one(3, -24), one(6, 1)} {
+			var neg off
+			for i := range o {
+				neg[i] = -o[i]
+			}
+			if from, ok := guardPlusUTC(d, neg); ok {
+				emitPlus(tr, via(), from, o)
+			}
+		}
+		emitPlus(tr, via(), withTime(d, randTime()), one(3, rnd.Intn(49)-24))
+		emitDiff(tr, via(), d, withTime(randDate(), randTime()))
+	}
+	for i := 0; i < 300; i++ {
+		emitPlus(tr, via(), randDate(), randOffset())
+		emitLit(tr, rnd.Intn(2), randDate())
+	}
+	tr.Close()
+	vh.Summary("seed", vh.Seed(), "tz", os.Getenv("TZ"), "local", time.Local.String(), "changedays", len(days),
+		"Plus", counts["Plus"], "Diff", counts["Diff"], "Lit", counts["Lit"], "Parse", counts["Parse"])
+}
+
+// guardPlusUTC picks a start date for a tz scenario with Go's time package in UTC
+// (input selection only; the model decides what the real Plus must return)
+func guardPlusUTC(d dt, o off) (dt, bool) {
+	t := time.Date(d[0]+o[0], time.Month(d[1]+o[1]), d[2]+o[2], d[3]+o[3], d[4]+o[4], d[5]+o[5], (d[6]+o[6])*1000000, time.UTC)
+	if t.Year() < 1700 || t.Year() >= 3000 {
+		return dt{}, false
+	}
+	return dt{t.Year(), int(t.Month()), t.Day(), t.Hour(), t.Minute(), t.Second(), t.Nanosecond() / 1000000}, true
+}
+
+// ---------------------------------------------------------------- replay
+
+func geti(m map[string]any, k string) int {
+	f, _ := m[k].(float64)
+	return int(f)
+}
+
+func getis(m map[string]any, k string) []int {
+	a, _ := m[k].([]any)
+	r := make([]int, len(a))
+	for i, x := range a {
+		f, _ := x.(float64)
+		r[i] = int(f)
+	}
+	return r
+}
+
+func todt(xs []int) (d dt) {
+	copy(d[:], xs)
+	return
+}
+
+func replay(in, out string) {
+	f, err := os.Open(in)
+	if err != nil {
+		vh.Fatal("replay: %v", err)
+	}
+	defer f.Close()
+	tr := vh.Create(out)
+	sc := bufio.NewScanner(f)
+	sc.Buffer(make([]byte, 1<<20), 1<<24)
+	for sc.Scan() {
+		line := strings.TrimSpace(sc.Text())
+		if line == "" {
+			continue
+		}
+		var m map[string]any
+		if err := json.Unmarshal([]byte(line), &m); err != nil {
+			vh.Fatal("replay: bad line: %v", err)
+		}
+		tzRun = geti(m, "tz")
+		switch m["e"] {
+		case "Reset":
+			tr.Reset()
+		case "Plus":
+			lo := getis(m, "o")
+			var o off
+			copy(o[:], lo)
+			// undo the split of large second/millisecond offsets
+			xd := geti(m, "xd")
+			switch geti(m, "xu") {
+			case 5:
+				o[5] = xd*86400 + lo[5]
+			case 6:
+				o[6] = xd*msPerDay + lo[6]
+			}
+			emitPlus(tr, geti(m, "via"), todt(getis(m, "d")), o)
+		case "Diff":
+			emitDiff(tr, geti(m, "via"), todt(getis(m, "a")), todt(getis(m, "b")))
+		case "Lit":
+			emitLit(tr, geti(m, "via"), todt(getis(m, "d")))
+		case "Parse":
+			b := getis(m, "s")
+			s := make([]byte, len(b))
+			for i, c := range b {
+				s[i] = byte(c)
+			}
+			emitParse(tr, geti(m, "via"), string(s))
+		}
+	}
+	tr.Close()
+	summary()
 }
 
 func main() {
-	th := &core.Thread{}
-	for _, s := range []string{
-		"#20171015",
-		"#20171014.Plus(days: 1)",
-		"#20171014.Plus(days: 2)",
-		"#20171016.MinusDays(#20171014)",
-		"#20171016.MinusSeconds(#20171014)",
-		"#20111230",
-		"#20111229.Plus(days: 1)",
-		"Date('2017-10-15')",
-	} {
-		fmt.Println(s, "=>", ev(th, s))
+	if len(os.Args) < 3 {
+		vh.Fatal("usage: calendar run <outdir> <scale> | tz <out> | replay <in> <out>")
+	}
+	rnd = rand.New(rand.NewSource(vh.Seed()*7919 + 33))
+	th = &core.Thread{}
+	switch os.Args[1] {
+	case "run":
+		scale := 1
+		if len(os.Args) > 3 {
+			scale, _ = strconv.Atoi(os.Args[3])
+		}
+		if scale < 1 {
+			scale = 1
+		}
+		run(os.Args[2], scale)
+	case "tz":
+		tz(os.Args[2])
+	case "replay":
+		if len(os.Args) < 4 {
+			vh.Fatal("usage: calendar replay <in> <out>")
+		}
+		replay(os.Args[2], os.Args[3])
+	default:
+		vh.Fatal("unknown mode %s", os.Args[1])
 	}
 }
